@@ -56,6 +56,8 @@ type c01In struct {
 	// created again, as a reload does), then requests to any of them after all exist
 	Groups [][]c01Site `json:"groups,omitempty"`
 	Reqs   []c01Req    `json:"reqs,omitempty"`
+	// set for the request-SEQUENCE stream (H): the shape of the history (miss-then-hits, hits-then-miss, …)
+	Seq string `json:"seq,omitempty"`
 }
 type c01Req struct {
 	Srv   int  `json:"srv"` // index into groups
@@ -151,6 +153,12 @@ func c01RunMulti(in *c01In) Result {
 		if n == 1 {
 			one++
 		}
+	}
+	if in.Seq != "" {
+		// a request SEQUENCE against one running server (or two): every answer is judged by the per-request
+		// spec on its own listener's sites — the routing of request i must not depend on requests 1..i-1
+		return Result{Term: term, Obs: obs, Sig: "sequence", Nontrivial: len(in.Reqs) >= 2,
+			Class: fmt.Sprintf("sequence:%s:n=%d:reqs=%d:hits=%d", in.Seq, len(in.Groups), len(in.Reqs), hits)}
 	}
 	return Result{Term: term, Obs: obs, Sig: "listeners", Nontrivial: len(in.Groups) >= 2 && len(in.Reqs) >= 2,
 		Class: fmt.Sprintf("listeners:n=%d:one-fallback=%d:hit-all=%v", len(in.Groups), one, hits == len(in.Reqs))}
@@ -638,13 +646,145 @@ func c01Gen(r *Rand, tier string) []interface{} {
 		}
 		out = append(out, &c01In{Groups: groups, Reqs: reqs})
 	}
+	out = append(out, c01GenSeq(r, scale, protoOf)...)
+	return out
+}
+
+// (H) request SEQUENCES against ONE running server (sometimes two listeners): serveHTTP must route request i by
+// the site set and request i's Host and path alone, whatever was asked before. Site sets in which a host
+// (exact, wildcard, catch-all, designated fallback) has ONLY sites with non-root path prefixes — so that the
+// host matches and no prefix covers some paths — next to hosts with a root site; histories: a miss first
+// (uncovered path, unknown host, other letter case / port of the host), then hits on the same host; hits first,
+// then the miss, then the same hits again; misses and hits alternating across hosts and listeners; the same
+// request repeated. Every answer of the history is judged by the per-request spec.
+func c01GenSeq(r *Rand, scale int, protoOf func() int) []interface{} {
+	var out []interface{}
+	hosts := []string{"example.com", "Shop.example.com", "*.example.com", "*.com", "a.b.example.org", "xn--caf-dma.example", "10.0.0.1", "[::1]", "", "localhost:8080"}
+	prefixes := []string{"/app", "/api", "/app/v2", "/a", "/static/", "/caf\xc3\xa9", "/x.y"}
+	uncovered := []string{"/favicon.ico", "/robots.txt", "/", "/ap", "/APP", "/other/app", "/b", ""}
+	instantiate := func(h string) string { // a request host the pattern matches
+		switch {
+		case h == "":
+			return r.Pick([]string{"whatever.example", "1.2.3.4", "zzz"})
+		case strings.HasPrefix(h, "*."):
+			return r.Pick([]string{"www", "a", "Shop"}) + h[1:]
+		}
+		return c01KeyHost(h)
+	}
+	respell := func(h string) string { // the same host as a client may spell it
+		switch r.Intn(4) {
+		case 0:
+			return strings.ToUpper(h)
+		case 1:
+			if !strings.Contains(h, ":") || strings.HasSuffix(h, "]") {
+				return h + ":" + r.Pick([]string{"80", "2015", "8080"})
+			}
+		case 2:
+			return c01MixCase(r, h)
+		}
+		return h
+	}
+	for i := 0; i < 160*scale; i++ {
+		ng := 1
+		if r.Chance(20) {
+			ng = 2
+		}
+		var groups [][]c01Site
+		type target struct {
+			srv      int
+			host     string   // a request host of a prefix-only host pattern
+			covered  []string // request paths some prefix of that host covers
+		}
+		var prefOnly []target
+		var rooted []target
+		for g := 0; g < ng; g++ {
+			var sites []c01Site
+			seen := map[string]bool{}
+			add := func(key string, fb bool) {
+				if k := strings.ToLower(key); !seen[k] {
+					seen[k] = true
+					sites = append(sites, c01Site{Key: c01B(key), Fallback: fb})
+				}
+			}
+			hs := r.Perm(len(hosts))
+			np := r.Range(1, 2)
+			for _, hi := range hs[:np] { // hosts with non-root prefixes only
+				h := hosts[hi]
+				key := h
+				if h == "" {
+					key = ":2015"
+				}
+				ps := r.Perm(len(prefixes))[:r.Range(1, 3)]
+				t := target{srv: g, host: instantiate(h)}
+				for _, pi := range ps {
+					add(key+prefixes[pi], r.Chance(8))
+					t.covered = append(t.covered, prefixes[pi]+r.Pick([]string{"", "/", "/index.html", "x", "/v1/users"}))
+				}
+				prefOnly = append(prefOnly, t)
+			}
+			for _, hi := range hs[np : np+r.Range(0, 2)] { // hosts with a root site (and maybe a prefix site too)
+				h := hosts[hi]
+				key := h
+				if h == "" {
+					key = ":2015"
+				}
+				add(key, r.Chance(10))
+				if r.Chance(40) {
+					add(key+r.Pick(prefixes), false)
+				}
+				rooted = append(rooted, target{srv: g, host: instantiate(h), covered: []string{"/", "/app/x", "/nothing"}})
+			}
+			var shuffled []c01Site
+			for _, j := range r.Perm(len(sites)) {
+				shuffled = append(shuffled, sites[j])
+			}
+			groups = append(groups, shuffled)
+		}
+		rq := func(t target, host, p string) c01Req {
+			return c01Req{Srv: t.srv, Host: c01B(host), Path: c01B(p), Proto: protoOf()}
+		}
+		t := prefOnly[r.Intn(len(prefOnly))]
+		hit := func() c01Req { return rq(t, t.host, r.Pick(t.covered)) }
+		miss := func() c01Req { return rq(t, t.host, r.Pick(uncovered)) }
+		var reqs []c01Req
+		shape := []string{"miss-then-hits", "hits-then-miss-then-hits", "across-hosts", "respelled-host", "repeated"}[i%5]
+		switch shape {
+		case "miss-then-hits":
+			reqs = append(reqs, miss())
+			for k := r.Range(2, 4); k > 0; k-- {
+				reqs = append(reqs, hit())
+			}
+		case "hits-then-miss-then-hits":
+			h1, h2 := hit(), hit()
+			reqs = append(reqs, h1, h2, miss(), h1, h2, miss(), hit())
+		case "across-hosts":
+			// a miss on one host, then hits and misses on the others and on it, listeners interleaved
+			all := append(append([]target{}, prefOnly...), rooted...)
+			reqs = append(reqs, miss(), rq(t, r.Pick([]string{"nosuch.example", "zzz", ""}), r.Pick(uncovered)))
+			for k := 0; k < 6; k++ {
+				o := all[r.Intn(len(all))]
+				p := r.Pick(o.covered)
+				if r.Chance(30) {
+					p = r.Pick(uncovered)
+				}
+				reqs = append(reqs, rq(o, o.host, p))
+			}
+			reqs = append(reqs, hit())
+		case "respelled-host":
+			reqs = append(reqs, rq(t, respell(t.host), r.Pick(uncovered)), hit(), rq(t, respell(t.host), r.Pick(t.covered)), miss(), rq(t, respell(t.host), r.Pick(t.covered)))
+		case "repeated":
+			m, h := miss(), hit()
+			reqs = append(reqs, h, m, m, h, h, m, h)
+		}
+		out = append(out, &c01In{Groups: groups, Reqs: reqs, Seq: shape})
+	}
 	return out
 }
 
 func init() {
 	register(&Property{
 		ID: "C01", Imports: "V.Lib V.GoPath V.GoNet V.C01_Model", Judge: "judge",
-		Rule:   "httpserver.NewServer + Server.ServeHTTP with a marker middleware per site that records the ordered list of sites whose handlers ran, the path_prefix context value and the trimmed path; streams: (A) mixed sets of 1-5 addresses over exact/wildcard/catch-all/IPv4/IPv6/punycode hosts x ports x mixed case x path prefixes (multi-byte UTF-8, truncated sequences, percent text), optional fallback flag, occasional repeated address, re-run permuted; (B) wildcard patterns of every depth for one name declared in EVERY order; (C) 2-5 sites sharing a host with nested byte-wise path prefixes plus a decoy host owning a longer prefix; (D) IPv6 literals with/without brackets and ports on both sides; (E) raw request-targets decoded by url.ParseRequestURI; (F) built-in catch-all hosts next to designated fallback sites in every mix; (G) 2-3 listeners (site groups with zero, one or two designated fallback sites of different names) created one after the other in ONE process by NewServer, sometimes one of them created again as a reload does, and only then requests to EVERY listener (unknown hosts, the other listeners' fallback host names, declared hosts), each judged against its own listener's site group. Requests aim at declared hosts (wildcards instantiated, one label more/less, random letter case, ports) or foreign hosts; paths are declared prefixes extended/truncated/bit-flipped with arbitrary bytes; protocol major 0-3. non-trivial = at least two sites; distinct = distinct case term",
+		Rule:   "httpserver.NewServer + Server.ServeHTTP with a marker middleware per site that records the ordered list of sites whose handlers ran, the path_prefix context value and the trimmed path; streams: (A) mixed sets of 1-5 addresses over exact/wildcard/catch-all/IPv4/IPv6/punycode hosts x ports x mixed case x path prefixes (multi-byte UTF-8, truncated sequences, percent text), optional fallback flag, occasional repeated address, re-run permuted; (B) wildcard patterns of every depth for one name declared in EVERY order; (C) 2-5 sites sharing a host with nested byte-wise path prefixes plus a decoy host owning a longer prefix; (D) IPv6 literals with/without brackets and ports on both sides; (E) raw request-targets decoded by url.ParseRequestURI; (F) built-in catch-all hosts next to designated fallback sites in every mix; (G) 2-3 listeners (site groups with zero, one or two designated fallback sites of different names) created one after the other in ONE process by NewServer, sometimes one of them created again as a reload does, and only then requests to EVERY listener (unknown hosts, the other listeners' fallback host names, declared hosts), each judged against its own listener's site group; (H) request SEQUENCES (4-9 requests) against ONE running server, sometimes two listeners, over site sets in which a host (exact, wildcard, catch-all, designated fallback) has only sites with non-root path prefixes next to hosts with a root site: miss first (uncovered path, unknown host, respelled host) then hits; hits, miss, the same hits again; alternating across hosts and listeners; repeated requests; every answer judged by the per-request spec. Requests aim at declared hosts (wildcards instantiated, one label more/less, random letter case, ports) or foreign hosts; paths are declared prefixes extended/truncated/bit-flipped with arbitrary bytes; protocol major 0-3. non-trivial = at least two sites; distinct = distinct case term",
 		Gen:    c01Gen,
 		Decode: func(raw json.RawMessage) (interface{}, error) { in := &c01In{}; return in, json.Unmarshal(raw, in) },
 		Run:    c01Run,
